@@ -33,6 +33,12 @@ func ttlValues(now time.Time) []interface{} {
 func (e *Env) ExpirePass() {
 	pre, evsBefore, _ := e.Obs(nil)
 	now := time.Now()
+	old := e.Engine.Catalog() // what readers hold: the pass must not touch it (C03)
+	oldDump := e.dumpCat(old)
+	defer func() {
+		e.Step++
+		e.Trace.Write(V{"fn": "snapcheck", "hist": e.Hist, "step": e.Step, "id": 0, "kind": "catalog published before a TTL pass", "pre": oldDump, "post": e.dumpCat(old)})
+	}()
 	txn, err := e.Engine.Begin(e.Ctx, true)
 	if err != nil {
 		e.finding("expire", "Begin failed: "+err.Error(), nil)
